@@ -11,11 +11,13 @@
    msg_prefix_* q           the prefix each prefix-scanning method uses
    mstore                   { ms_engine; ms_persistent; ms_confirm; ms_db; ms_add; ms_upd; ms_del; ms_fly }
    ms_init e persistent confirm_mode
-   mlabel                   MAdd m q | MUpdate m q | MDel m q | MPurge q                  (API calls)
+   mlabel                   MAdd m q | MUpdate m q | MDel m q | MPurge q                  (API calls; MPurge is
+                              disabled while a persist is in flight: flushLock)
                             | MIterFrom q id limit | MLength q | MIterate q limit | MRecover q limit   (queries)
                             | MPersistSwap | MPersistBatch | MPersistConfirm               (persist, split where
                               the code holds no lock: swap under persistLock / ProcessBatch / confirm loop)
                             | MPersistTick  (= the three in a row)
+                            | MClose (graceful stop: persist once more, then as MKill)
                             | MKill  (process dies: only ms_db survives; a transient store is wiped)
    mevent                   EvBatch ops | EvRelay key m | EvCancelled key | EvMsgs l n | EvLen n | EvPanic
                             EvRelay k m : storage.confirm(m) whose guard held and whose `ConfirmMeta.Confirm()`
@@ -95,6 +97,7 @@ Inductive mlabel :=
 | MIterFrom (q : bytes) (id limit : N) | MLength (q : bytes) | MIterate (q : bytes) (limit : N) | MRecover (q : bytes) (limit : N)
 | MPersistSwap | MPersistBatch | MPersistConfirm | MPersistTick
 | MExtConfirm (meta : N)
+| MClose
 | MKill.
 
 (* ---- persist ---- *)
@@ -214,9 +217,26 @@ Definition ms_update_msg (st : mstore) (m : msg) (q : bytes) : mstore :=
   with_pending st (ms_add st) (kv_set (ms_upd st) (msg_key q (m_id m)) m) (ms_del st).
 Definition ms_del_msg (st : mstore) (m : msg) (q : bytes) : mstore :=
   with_pending st (ms_add st) (ms_upd st) (kv_set (ms_del st) (msg_key q (m_id m)) m).
-(* PurgeQueue: engine-direct DeleteByPrefix; the pending maps are not touched (F41) *)
+(* PurgeQueue: under flushLock (which persist holds for its whole body: a purge never runs between persist's snapshot
+   and its batch - here: the label is disabled while a persist is in flight), under persistLock every pending add whose
+   key is makeKey(message.ID, queue) is cancelled by a del of the same key (persist will confirm it through `settled`
+   without writing it) and every such pending update is dropped; then the engine DeleteByPrefix as before *)
+Definition purge_del (add del : kv msg) (q : bytes) : kv msg :=
+  if purge_cancels_pending_adds
+  then fold_left (fun d e => if keqb (fst e) (msg_key q (m_id (snd e))) then kv_set d (fst e) (snd e) else d) add del
+  else del.
+Definition purge_upd (upd : kv msg) (q : bytes) : kv msg :=
+  if purge_drops_pending_updates
+  then filter (fun e => negb (keqb (fst e) (msg_key q (m_id (snd e))))) upd
+  else upd.
+Definition purge_blocked (st : mstore) : bool :=
+  purge_waits_for_persist && match ms_fly st with Some _ => true | None => false end.
 Definition ms_purge (st : mstore) (q : bytes) : mstore :=
-  set_db st (eng_del_prefix (ms_engine st) (ms_db st) (msg_prefix_del q)) (ms_fly st) (ms_counts st).
+  if purge_blocked st then st
+  else {| ms_engine := ms_engine st; ms_persistent := ms_persistent st; ms_confirm := ms_confirm st;
+          ms_db := eng_del_prefix (ms_engine st) (ms_db st) (msg_prefix_del q);
+          ms_add := ms_add st; ms_upd := purge_upd (ms_upd st) q; ms_del := purge_del (ms_add st) (ms_del st) q;
+          ms_fly := ms_fly st; ms_counts := ms_counts st |}.
 
 Definition ms_iter_from (st : mstore) (q : bytes) (id limit : N) : list msg * N :=
   let '(r, n) := eng_iter_prefix_from (ms_engine st) (ms_db st) (msg_prefix_from q) (msg_from_key q id) limit in
@@ -251,6 +271,10 @@ Definition ms_step (st : mstore) (l : mlabel) : mstore * list mevent :=
   | MPersistTick => seq_steps ms_swap (seq_steps ms_batch ms_confirm_step) st
   | MExtConfirm meta =>
     (set_db st (ms_db st) (ms_fly st) (count_set (ms_counts st) meta (count_of (ms_counts st) meta + 1)), [])
+  | MClose =>     (* graceful stop: one more persist (if the source says so), then only the engine survives *)
+    if close_persists
+    then let '(s1, e1) := seq_steps ms_swap (seq_steps ms_batch ms_confirm_step) st in (ms_kill s1, e1)
+    else (ms_kill st, [])
   | MKill => (ms_kill st, [])
   end.
 
